@@ -274,6 +274,15 @@ def sweep(prog, nbands, layouts, tier, deadline, procs=16):
     import time
     _PROG[0] = prog
     shapes_l = list(gen_shapes(nbands, layouts))
+    # "irrelevant" is itself part of the rule: a few shapes keep a populated band BELOW a finished one (whatever the finished band
+    # holds - nothing, one hunk - the listing must stop there and never reach the older band)
+    if nbands >= 3:
+        for mid in ([], [(0, 1)]):
+            for top_state in ('open',):
+                for top_l in ([], [(0, 1)]):
+                    sh = [('closed', [(0, 2)])] + [('absent', [])] * (nbands - 3) + [('closed', mid), (top_state, top_l)]
+                    if sh not in shapes_l:
+                        shapes_l.append(sh)
     tot = {'paths': 0, 'queries': 0, 'solver_s': 0.0, 'nontrivial': 0, 'bad': [], 'inconclusive': [], 'functions': set(), 'models': set(),
            'samples': [], 'shapes': len(shapes_l), 'shapes_done': 0}
     ctx = mp.get_context('fork')
